@@ -21,7 +21,7 @@ Inv1(cmd, arg, sc, tbl) == Inv(cmd, TRUE, arg, <<>>, "", FALSE, "", sc, tbl)
 UpTo(n) == SeqsUpTo(Base, n) \cup {<<CapTok>> \o r : r \in SeqsUpTo(Base, n - 1)}
 LongArgs == {<<"a", ":", "a", "/", "e">>, <<"a", "/", "a", "/", "a">>, <<"K", "/", "a", "/", "e">>, <<"K", ":", ".", "/", "a", "/", "a">>,
              <<"a", "/", "/", "a">>, <<"/", "a", "/", "a">>, <<"a", ":", "/", "a">>, <<"a", "e", ":", "e">>,
-             <<"a", "/", "e", ":", "a">>, <<".", "/", "a", ":", "e">>, <<"a", ":", "a", "/", "e", "/">>, <<" ", "a", "/", "e", " ">>}
+             <<"a", "/", "e", ":", "a">>, <<".", "/", "a", ":", "e">>, <<"a", ":", "a", "/", "e", "/">>, <<" ", "a", "/", "e", " ">>, <<"K", ":", ".", "/">>}
 Args == UpTo(ArgLen) \cup LongArgs
 ShortArgs == UpTo(ShortLen) \cup LongArgs
 Cmds1 == {"ls", "get", "unlink", "mkdir", "put"}
